@@ -50,7 +50,7 @@ type lockResult struct {
 	mu        *types.Var
 	funcs     []*ssa.Function
 	entry     map[*ssa.Function]lstate
-	entryWhy  map[*ssa.Function]string // a witness call chain for a non-held entry
+	entryWhy  map[*ssa.Function]string   // a witness call chain for a non-held entry
 	at        map[ssa.Instruction]lstate // state before each instruction
 	accesses  []guardedAccess
 	locks     map[*ssa.Function][]ssa.Instruction // Lock calls per function
